@@ -378,7 +378,13 @@ func (ec *evalCtx) binary(x *spec.Binary) Val {
 	case "||":
 		return Val{T: smt.Or(ec.boolean(x.X), ec.boolean(x.Y))}
 	case "==>":
-		return Val{T: smt.Implies(ec.boolean(x.X), ec.boolean(x.Y))}
+		// short-circuit: a statically false antecedent leaves the consequent unevaluated
+		// (it may mention locals that are not in scope at this call site)
+		ant := ec.boolean(x.X)
+		if ant == smt.False {
+			return Val{T: smt.True}
+		}
+		return Val{T: smt.Implies(ant, ec.boolean(x.Y))}
 	case "<==>":
 		return Val{T: smt.Iff(ec.boolean(x.X), ec.boolean(x.Y))}
 	}
@@ -562,6 +568,62 @@ func (ec *evalCtx) callSpec(x *spec.Call) Val {
 			return Val{T: t}
 		}
 		return Val{T: smt.IntLit(0)}
+	case "vlit", "vprefix", "vstr", "vcount":
+		// the elements of a ...any argument built at this call site:
+		// vlit(v, i, "text"): element i is the string "text" (decided statically for literals);
+		// vprefix(v, i, "p"): element i is a string literal with prefix p (static only);
+		// vstr(v, i): element i as a string; vcount(v): number of elements
+		boxes, ok := fc.varargs(ec.cur, ec.eval(x.Args[0]))
+		if x.Fun == "vcount" {
+			if !ok {
+				return Val{T: smt.IntLit(-1)}
+			}
+			return Val{T: smt.IntLit(int64(len(boxes)))}
+		}
+		i, _ := strconv.Atoi(x.Args[1].(*spec.IntLit).Val)
+		var el *Val
+		if ok && i < len(boxes) && kindOf(boxes[i].ty) == KStr {
+			el = &boxes[i].v
+		}
+		switch x.Fun {
+		case "vstr":
+			if el == nil {
+				return fc.freshVal("vstr", types.Typ[types.String])
+			}
+			return Val{T: el.T}
+		case "vlit":
+			want := x.Args[2].(*spec.StrLit).Val
+			if el == nil {
+				return Val{T: smt.False}
+			}
+			if lit, isLit := fc.literalOf(fc.S.Resolve(el.T, 12)); isLit {
+				if lit == want {
+					return Val{T: smt.True}
+				}
+				return Val{T: smt.False}
+			}
+			return Val{T: smt.Eq(el.T, fc.strLit(want))}
+		default:
+			want := x.Args[2].(*spec.StrLit).Val
+			if el == nil {
+				return Val{T: smt.False}
+			}
+			if lit, isLit := fc.literalOf(fc.S.Resolve(el.T, 12)); isLit && strings.HasPrefix(lit, want) {
+				return Val{T: smt.True}
+			}
+			return Val{T: smt.False}
+		}
+	case "islit":
+		// islit(x, "text"): decided statically when x is a string literal, else the equality
+		v := ec.scalar(ec.eval(x.Args[0]), x)
+		want := x.Args[1].(*spec.StrLit).Val
+		if lit, isLit := fc.literalOf(fc.S.Resolve(v, 12)); isLit {
+			if lit == want {
+				return Val{T: smt.True}
+			}
+			return Val{T: smt.False}
+		}
+		return Val{T: smt.Eq(v, fc.strLit(want))}
 	case "callres", "called", "callresb":
 		// callres("callee", k [, i]): (component i of) the result of the k-th call to callee on this path
 		name := x.Args[0].(*spec.StrLit).Val
